@@ -132,6 +132,7 @@ func main() {
 	genManagerCFG()
 	genRouter()
 	genListen()
+	genSvcStart()
 	genBounds()
 	if forProp == "" || forProp == "C15" {
 		genLockset()
